@@ -781,6 +781,13 @@ class PDFPageInterpreter:
                 raise PDFInterpreterError("No colorspace specified!")
             n = 1
 
+        if n in (1, 3, 4) and len(self.argstack) < n:
+            values = self.pop(n)
+            log.warning(
+                f"Cannot set stroke color because {n} operands are required but only {values!r} are available"
+            )
+            return
+
         if n == 1:
             gray = self.pop(1)[0]
             gray_f = safe_float(gray)
@@ -825,6 +832,13 @@ class PDFPageInterpreter:
             if settings.STRICT:
                 raise PDFInterpreterError("No colorspace specified!")
             n = 1
+
+        if n in (1, 3, 4) and len(self.argstack) < n:
+            values = self.pop(n)
+            log.warning(
+                f"Cannot set non-stroke color because {n} operands are required but only {values!r} are available"
+            )
+            return
 
         if n == 1:
             gray = self.pop(1)[0]
